@@ -31,6 +31,125 @@ CLAIMED = {
         note=TB + "Call sites of unify/unify_all in the checker (list/dict literals, if, try, match) are not modelled; "
              "the property is decided for the two combining functions every such site goes through.",
         design="§7 C15"),
+
+    "C04": dict(
+        category="proof",
+        technique="Lean 4 proof over a hand-written Int64 model of eval_int_binop/eval_assign_update + CLI correspondence + big-int oracle",
+        text="Full for integers: for all a b : Int64, + - * wrap (two's complement), / is truncated division or a Garden "
+             "exception (b = 0, MIN / -1), % is the Euclidean remainder or an exception, ** is exact iff 0 <= n <= u32::MAX and "
+             "representable else an exception, comparisons are the integer order, += / -= equal x = x +/- e, and no operator "
+             "has a panic outcome (Props/C04.lean, 30 theorems). Floats: control logic only (type errors, /. by +-0.0 raises). "
+             "Every quick run compares the model with `garden run -c` on a 40-value boundary set squared x every operator "
+             "(~27k cases) and judges the binary with an independent Python big-int / IEEE reference.",
+        note=TB + "core::i64 checked_pow / checked_div / checked_rem_euclid / wrapping_* are modelled by their documented contracts; "
+             "IEEE results are compared, not reasoned about. Two stricter-than-documented exception cases (MIN % -1, 1 ** 2^32) "
+             "are stated as theorems and listed as known findings. The model is of the tree with the div-overflow and += fixes.",
+        design="§7 C04"),
+    "C08": dict(
+        category="proof",
+        technique="Lean 4 proof (simulation + induction on fuel and remaining schedule) over the machine model M4 + per-tick trace correspondence with interrupt injection",
+        text="Proved on the machine model for every program, every interrupt schedule (flag set before any step, any list of "
+             "ticks, consecutive interrupts, any number of resumptions) in a session without a tick limit: an interrupted step "
+             "only increments the tick counter and clears the flag (interrupt_is_stutter: the popped entry is pushed back, no "
+             "value touched, nothing printed), and the resumed run ends with the same result/error, the same output log and the "
+             "same final frames as the uninterrupted run (run_sim, interrupts_unobservable). The model machine is compared "
+             "tick-by-tick with the real evaluator (hook H2/H3) on generated programs x EVERY single interrupt position plus "
+             "random multi-interrupt schedules; the binary is also judged directly (same output/outcome, trace minus stutter "
+             "lines = uninterrupted trace), and a sample runs through a real JSON session with :resume.",
+        note=TB + "With a tick limit the statement is false (an interrupt consumes a tick), so tickLimit = none is a hypothesis. "
+             "Interrupt delivery is modelled as the flag being set before a step's check. Fragment: ints, strings, lists, "
+             "tuples, enums, let/assign, if, while, for, match, break/continue/return, functions, closures, print built-ins; "
+             "floats, dicts, structs, methods, try are outside the model (programs using them are skipped).",
+        design="§7 C08"),
+    "C12": dict(
+        category="proof",
+        technique="Lean 4 proof over models of escape/unescape, the STRING_RE scanner and Value::display with a literal reader + hook/CLI correspondence + print-reparse-reprint oracle",
+        text="Proved for all strings and all literal values (unbounded): unescape_string(escape_string_literal(s)) = (s, no "
+             "diagnostics); the (repaired) string regex scans exactly the printed literal whatever follows; the model reader "
+             "(lexer token classes + literal grammar + evaluation) applied to display v returns v for ints, strings, lists, "
+             "tuples, dicts, enum values and structs of any nesting, floats under the FloatRepr assumption. Correspondence: "
+             "escape/unescape/lex hook ops exhaustively on strings of length <= 4 over a 10-character alphabet, string_repr on "
+             "nested values; oracle: the printed text is run again and must print identically and compare == to the original.",
+        note=TB + "Float printing/parsing is Rust std, assumed via FloatRepr and sampled. Non-finite floats print as inf.0/NaN.0 "
+             "(outside the property). The regex engine's leftmost-first semantics are tied by exhaustive correspondence, not "
+             "proved. Holds with the STRING_RE fix; Lean counterexample for the pinned regex is kept.",
+        design="§7 C12"),
+    "C13": dict(
+        category="proof",
+        technique="Lean 4 proof (mutual structural induction over a nested LitValue) over a transcription of PartialEq for Value_ + CLI correspondence",
+        text="Full: valueEq a b = true iff a = b for all literal values of any size and depth (floats by bit pattern = printed "
+             "form for finite floats); != is the negation; reflexive, symmetric, transitive. Every ordered pair of a 64-value "
+             "pool (all 8 value kinds, depth <= 3, operands built separately) is run through `garden run -c` and compared with "
+             "the model and with structural equality of the generator's trees; relation laws are checked on the observed relation.",
+        note=TB + "rpds map equality assumed extensional (dicts in canonical sorted form); runtime types computed by a "
+             "transcription of enum/struct literal evaluation. Model = tree with the Float/Dict equality fix.",
+        design="§7 C13"),
+    "C23": dict(
+        category="proof",
+        technique="Lean 4 proof over the lexer model M1 and Position::merge + lex-op correspondence + position oracle over lex/astpos/check/run",
+        text="Proved for every source text: every token, comment and lex-error position is consistent (offsets on character "
+             "boundaries inside the file, line = newlines before the offset, column = bytes since the line start, same for the "
+             "end), and merge / merge_token of consistent positions is consistent, so every parser-built position is. "
+             "Correspondence: the real lexer vs the model on ~40k texts (exhaustive short strings, non-ASCII, multi-line). "
+             "Direct oracle: ~430k positions reported by lex, every AST node (astpos hook), check diagnostics and fixes, "
+             "check --json and runtime exceptions are recomputed from the text in Python.",
+        note=TB + "Hand-built positions in src/checks/*.rs and runtime/JSON/LSP positions are covered by the oracle only; "
+             "JSON-session and go-to-definition positions are not probed. LinePositions' binary search is modelled as a linear "
+             "search. Holds with the three position fixes (token end line, non-ASCII advance, autofix positions).",
+        design="§7 C23"),
+    "C29": dict(
+        category="proof",
+        technique="Lean 4 proof over a transcription of the four lsp.rs position functions and the LSP-spec edit semantics + exhaustive hook correspondence + real-server differential test",
+        text="Proved for all documents shorter than 2^32 bytes: offset -> (line, UTF-16 column) -> offset is the identity on "
+             "every character-boundary offset; the conversion panics exactly off a boundary strictly inside the document; "
+             "positions are injective; whole_document_range covers exactly 0..len; under NoBareCR an edit built from byte "
+             "offsets, applied as the LSP specification defines, replaces exactly those bytes. Correspondence: exhaustive over "
+             "documents of length <= 4 over {a, e-acute, euro, emoji, CR, LF} x all offsets (incl. non-boundary: panic matched) "
+             "plus random documents; the real server's formatting/rename/code-action edits are applied by an independent "
+             "spec-conforming applier and compared with the CLI refactorings.",
+        note=TB + "The edit statement needs NoBareCR (shown necessary by witness; bare CR is known finding C29/bare-CR-line-model). "
+             "str::lines/find/rfind modelled from the Rust library documentation.",
+        design="§7 C29"),
+    "C30": dict(
+        category="proof",
+        technique="Lean 4 inductive invariant over all interleavings of an LTS model of nrepl.rs + trace-inclusion correspondence of real TCP traces under forced delays (hook H4)",
+        text="Proved on the labelled transition system M10 (reader, per-session worker, flusher, response queue, shared flag; "
+             "steps at the granularity of the Rust's lock/atomic/channel operations) by Inv init and Inv preserved by every "
+             "step, with no bound on steps, requests, sessions or output: per request id, produced = delivered ++ in-flight ++ "
+             "buffered per stream; at most one done and nothing with that id after it; done r in the queue implies flusher "
+             "exited and nothing in flight (all output before done); sessions do not change each other's definitions. "
+             "Real `garden nrepl` traces over TCP under 16 forced schedules x scripts must be accepted by the model and satisfy "
+             "the raw-trace oracle (one done, last, output complete and in order, isolation).",
+        note=TB + "Safety only: that done is eventually sent needs the eval to terminate (C02/C25) and fair scheduling. mpsc FIFO "
+             "order and join happens-before are assumptions. Ids are assumed unique per connection. SIGINT, connection "
+             "teardown and worker panics are not modelled.",
+        design="§7 C30, Appendix C"),
+    "C31": dict(
+        category="proof",
+        technique="Lean 4 proofs on the same LTS model M10 + deterministic interrupt/close probes against the real server (hook H4 delays)",
+        text="Proved on M10: an interrupt or close handled while request r is executing (between its flag reset and its last "
+             "flag test) leaves r armed until it ends with status interrupted, along every continuation "
+             "(interrupt_hits_running, close_stops_partial); from a clear flag and with no interrupt/close for the session the "
+             "worker never reads a set flag (idle_interrupt_harmless, worker-state strength); later requests to a closed "
+             "session get unknown-session. Probes on the real server: idle interrupt then long eval, infinite loop + interrupt "
+             "after first output, interrupt behind a second eval, close during a loop.",
+        note=TB + "close_stops is partial: a request dequeued or queued but not yet reset when close arrives runs uninterruptibly "
+             "(known finding C31/close-before-reset, reproduced deterministically with the H4 delay). Real scheduling is only "
+             "nudged by delays.",
+        design="§7 C31, Appendix C"),
+    "C32": dict(
+        category="proof",
+        technique="Lean 4 proofs (fuel induction) over line-by-line transcriptions of src/__prelude.gdn and the eval.rs built-ins + CLI correspondence + doc-comment oracle",
+        text="Proved for all arguments: each of first, last, get, len, concat, map, filter, enumerate, range, join, starts_with, "
+             "ends_with, strip_prefix/suffix, contains, min, max, sort_nums (= merge sort, sorted permutation), substring (value "
+             "and exactly when it raises), slice, chars, trim variants (code behaviour), index_of (leftmost occurrence), "
+             "split_once, split and replace (needle non-empty: cut at leftmost occurrences, right inverse of join; empty needle "
+             "handled by the guard) equals its reference and terminates within an explicit fuel bound; without the guard the "
+             "loop is proved to diverge on an empty needle. ~62k calls per quick run compare the transcription with `garden "
+             "run`; Python references written from the doc comments judge the binary directly.",
+        note=TB + "Text is modelled at code-point level (the built-ins count chars). `lines` is only partially proved; list "
+             "index_of/append are correspondence-only. Known findings: trims remove only U+0020; \"\".index_of(\"\") is None.",
+        design="§7 C32"),
 }
 
 NOT_YET = {}
